@@ -38,6 +38,7 @@ type Val struct {
 	Bind []Val
 	Tup  []Val
 	Prov *Ptr // where this (slice) value was loaded from
+	Back *Backing // slice values: which backing array the slice points into (nil: unknown), see backing.go
 }
 
 func tv(t Term) Val { return Val{K: VTerm, T: t} }
@@ -110,6 +111,9 @@ type State struct {
 	boxedHere   map[*Cell]bool  // cells whose content has been moved to the box heap on this path
 	scopeNeeds  []scopeNeed     // row sources introduced on this path that still need an owner predicate (scope.go)
 	ctes        map[string]bool // names defined by With(name, ...) on this path
+	backOf      map[string]storedBacking // backing of the slice last stored in a heap field on this path (copy on write)
+	escaped     map[string]bool     // fresh backing arrays handed to a call (copy on write)
+	roRouters   map[string]bool // chi routers on which api.ReadOnly is installed (copy on write, see markRO)
 }
 
 type namedRef struct {
@@ -235,6 +239,9 @@ func (s *State) clone() *State {
 			n.boxedHere[k] = true
 		}
 	}
+	n.roRouters = s.roRouters
+	n.backOf = s.backOf
+	n.escaped = s.escaped
 	if s.ctes != nil {
 		n.ctes = map[string]bool{}
 		for k := range s.ctes {
